@@ -1,13 +1,39 @@
 from xdsl.context import Context
 from xdsl.dialects import builtin, scf
 from xdsl.dialects.memref import DeallocOp
-from xdsl.ir import Operation
+from xdsl.ir import Operation, OpResult, SSAValue
 from xdsl.passes import ModulePass
 from xdsl.rewriter import InsertPoint, Rewriter
 
 from snaxc.accelerators.acc_context import AccContext
 from snaxc.dialects import snax
 from snaxc.util.dispatching_rules import dispatch_to_compute, dispatch_to_dm
+
+
+# operations whose result is a view of (part of) the buffer of their first operand
+VIEW_OPS = {
+    "memref.subview",
+    "memref.cast",
+    "memref.reinterpret_cast",
+    "memref.memory_space_cast",
+    "memref.expand_shape",
+    "memref.collapse_shape",
+    "memref.transpose",
+    "snax.layout_cast",
+}
+
+
+def aliases(value: SSAValue) -> list[SSAValue]:
+    """All values that refer to the same buffer as the given value:
+    the buffer it is a view of, and every (transitive) view of that buffer."""
+    while isinstance(value, OpResult) and value.op.name in VIEW_OPS:
+        value = value.op.operands[0]
+    result = [value]
+    for alias in result:
+        for use in alias.uses:
+            if use.operation.name in VIEW_OPS and use.index == 0:
+                result.extend(use.operation.results)
+    return result
 
 
 class InsertSyncBarrier(ModulePass):
@@ -41,8 +67,8 @@ class InsertSyncBarrier(ModulePass):
 
             # check all operands of current op
             for operand in [*op_in_module.operands, *op_in_module.results]:
-                # check all ops that use the operand -> dependency with current op
-                for op_use in operand.uses:
+                # check all ops that use the operand (or a view of the same buffer) -> dependency with current op
+                for op_use in (use for alias in aliases(operand) for use in alias.uses):
                     # now check if op is dispatched to a specific core and the result
                     # is used on another core - if yes, there must be a synchronisation
                     # barrier between the two ops
